@@ -479,4 +479,36 @@ example :
     (newConfig .th parse e []).insecure = false ∧ (newConfig .th parse e [.insecure]).insecure = true ∧
     (newConfig .th parse { e with insS := none } []).insecure = true := by decide
 
+/-! ## F20 is exactly the observed difference -/
+
+/-- TIGHTNESS of the F20 exclusion: for an HTTP exporter `F20_applies` holds if and only if the signal-specific endpoint
+variable decides the path AND the path the exporter really uses differs from that variable's path taken verbatim —
+the predicate excludes nothing but the cases in which the clause `specific endpoint used verbatim` actually fails. -/
+theorem F20_tight (exp : Exp) (hh : exp.isHttp = true) (parse : Parse) (e : OtlpEnv) (opts : List UOpt) :
+    F20_applies exp parse e opts = true ↔
+      ∃ p, pathSource exp parse e opts = .specific p ∧ (newConfig exp parse e opts).path ≠ verbatim p := by
+  constructor
+  · intro hF
+    cases hs : pathSource exp parse e opts with
+    | specific p =>
+      refine ⟨p, rfl, ?_⟩
+      cases hl : exp.isLog
+      · rw [otlp_path_exact exp hh, hs]
+        simp only [F20_applies, hh, hl, hs, Bool.not_false, Bool.and_self, Bool.true_and] at hF
+        simpa [hl, tmRawPath] using hF
+      · simp [F20_applies, hl] at hF
+    | opt p => simp [F20_applies, hs] at hF
+    | generic b => simp [F20_applies, hs] at hF
+    | dflt => simp [F20_applies, hs] at hF
+  · rintro ⟨p, hs, hne⟩
+    cases hF : F20_applies exp parse e opts
+    · exact absurd (specific_endpoint_verbatim_partial exp hh parse e opts p hs hF) hne
+    · rfl
+
+/-- … and it never applies to a log exporter or a gRPC exporter (no URL path there), so for those the path clauses
+hold without exclusion. -/
+theorem F20_only_trace_metric_http (exp : Exp) (parse : Parse) (e : OtlpEnv) (opts : List UOpt)
+    (h : exp.isHttp = false ∨ exp.isLog = true) : F20_applies exp parse e opts = false := by
+  rcases h with h | h <;> simp [F20_applies, h]
+
 end Otel.C20
